@@ -20,8 +20,9 @@ MC_DispQ == Sym({0, 1, 149, 199, 249, 251})
 MC_DispT == Sym({0, 1, 125, 149, 151, 169, 171, 199, 201, 249, 251, 252})
 (* "SE": a two-letter element without an entry of its own in the distance table (default criterion, in either order) *)
 MC_ElPairs  == { <<"C","C">>, <<"C","H">>, <<"H","H">>, <<"S","S">>, <<"F","F">>, <<"C","S">>, <<"S","SE">>, <<"SE","S">>,
-                 <<"SE","SE">>, <<"H","SE">>, <<"F","S">> }
+                 <<"SE","SE">>, <<"H","SE">>, <<"F","S">>, <<"C","I">>, <<"I","C">>, <<"I","I">>, <<"C","F">> }
 MC_ElPairsQ == { <<"C","C">>, <<"C","H">>, <<"S","S">>, <<"S","SE">> }
+MC_ElPairsQ2 == { <<"C","C">>, <<"C","H">>, <<"S","S">>, <<"C","I">> }      \* the quick tier alternates between the two
 
 P1 == {<<c1 * B + o1, c2 * B + o2, c3 * B + o3>> : c1 \in BaseCells, c2 \in BaseCells, c3 \in BaseCells,
                                                      o1 \in BaseOff, o2 \in BaseOff, o3 \in BaseOff}
